@@ -351,12 +351,14 @@ type Pool struct {
 func (p *Pool) Get() any {
 	simrt.Yield("Pool.Get")
 	p.mu.Lock()
-	defer p.mu.Unlock()
 	if n := len(p.items); n > 0 {
 		x := p.items[n-1]
 		p.items = p.items[:n-1]
+		p.mu.Unlock()
 		return x
 	}
+	p.mu.Unlock()
+	// New runs instrumented code (it may yield): never under the real mutex
 	if p.New != nil {
 		return p.New()
 	}
